@@ -25,7 +25,8 @@ TECHNIQUE = ('runtime monitoring: (A) the same octets are decoded from eight kin
              '(abstract value, remainder, exception class) compared; (B) random operation histories on the real '
              'CachingStreamWrapper are checked step by step against io.BytesIO as the executable model')
 RULE = ('(A) cases = byte strings (valid encodings with single elements around 8191/8192/8193/16385/70000 octets, deep '
-        'and wide definite and indefinite containers, ANY members; and mutations of them) x kinds {bytes, BytesIO, '
+        'and wide definite and indefinite containers, ANY members; mutations of them; headers declaring lengths of 2^31..2^128 '
+        'octets followed by 0..3 buffer sizes of filler) x kinds {bytes, BytesIO, '
         'OCTET STRING, ANY, buffered file, unbuffered file, gzip reader, non-seekable raw stream} x {one-shot, '
         'streaming}; (B) histories of up to 60 operations from {read(n), peek(n), seek back to >= mark (absolute and '
         'relative), set mark at current position, tell} with sizes straddling io.DEFAULT_BUFFER_SIZE; non-trivial = '
@@ -262,6 +263,45 @@ def arm_kinds(res, rng, tier, kinds_factory):
                     'kinds': KINDS})
 
 
+def absurd_data(head, lenoctets, value, tail_n, fill):
+    """<head> 8n <value in n octets> <tail_n filler octets>: a definite length no substrate can satisfy."""
+    return head + bytes([0x80 | lenoctets]) + value.to_bytes(lenoctets, 'big') + bytes([fill]) * tail_n
+
+
+def arm_absurd(res, rng, kinds_factory, fixed=None):
+    """Invalid input whose declared length is far beyond what is there (and beyond what can be allocated or
+    addressed): every kind of substrate must report it the same way, whatever follows the header."""
+    if fixed is None:
+        head = rng.choice([b'\x04', b'\x03', b'\x0c', b'\x30', b'\x24', b'\x31', b'\xa0', b'\x30\x80\x04', b'\x30\x82\x7f\xff\x04',
+                           b'\x02', b'\x06', b'\x09', b'\x13'])
+        lenoctets = rng.choice([4, 5, 6, 7, 8, 8, 9, 16])
+        value = rng.choice([1 << (8 * lenoctets - 1 - rng.randint(0, 6)), (1 << (8 * lenoctets)) - 1,
+                            rng.getrandbits(8 * lenoctets) | (1 << (8 * lenoctets - 8))])
+        tail_n = rng.choice([0, 1, 100, BUF - 12, BUF - 1, BUF, BUF + 1, 3 * BUF + 3])
+        fill = rng.choice([0, 0x30, 0xff, 0x04])
+        fixed = (head.hex(), lenoctets, value, tail_n, fill)
+    head, lenoctets, value, tail_n, fill = fixed
+    data = absurd_data(bytes.fromhex(head), lenoctets, value, tail_n, fill)
+    codec = 'BER'
+    case = ('c11-absurd',) + tuple(fixed)
+    feats0 = {'arm:absurd-length', 'codec:BER', 'origin:absurd-length', 'length-octets:%d' % lenoctets,
+              'tail:' + ('>=buffer' if tail_n >= BUF else '<buffer')}
+    for mode in ('oneshot', 'stream'):
+        outs = {}
+        for kind in KINDS:
+            outs[kind] = outcome(DEC[codec], kinds_factory.make(kind, data), None, None, mode, 5)
+        kinds_factory.cleanup_files()
+        ref = outs['bytesio']
+        res.case(U.case_hash(case, mode), tail_n >= BUF)
+        res.see('comparisons:%s:absurd-length' % mode)
+        res.see('absurd-outcome:%s' % (ref[1] if ref[0] == 'raised' else ref[0]))
+        for kind, o in outs.items():
+            res.see('kind-runs:' + kind)
+            if o != ref:
+                res.witness('kind-differs:%s-vs-bytesio:%s' % (kind, mode), feats0 | {'kind:' + kind, 'mode:' + mode}, case,
+                            '%s: %s ; bytesio: %s' % (kind, repr(o)[:160], repr(ref)[:160]))
+
+
 # ------------------------------------------------------------------ (B) the wrapper against io.BytesIO
 
 def arm_wrapper(res, rng):
@@ -364,6 +404,8 @@ def run_shard(shard, tier, seed):
                 break
             try:
                 arm_kinds(res, rng, tier, kf)
+                if i % 2 == 0:
+                    arm_absurd(res, rng, kf)
                 for _ in range(6):
                     arm_wrapper(res, rng)
             except Exception:
@@ -398,6 +440,13 @@ def replay(case):
         rng.choice = fake_choice
         rng.getrandbits = (lambda k, _g=rng.getrandbits: case_seed if k == 40 else _g(k))
         arm_wrapper(res, rng)
+        return res
+    if case[0] == 'c11-absurd':
+        kf = Kinds()
+        try:
+            arm_absurd(res, None, kf, fixed=tuple(case[1:]))
+        finally:
+            kf.close()
         return res
     if case[0] == 'c11-kinds-gen':
         # ('c11-kinds-gen', n, mode): SEQUENCE { a INTEGER, b OCTET STRING (n octets), c BOOLEAN } in DER
